@@ -1,6 +1,7 @@
 import MqttVerif.Conn.Lemmas.TimersAccept
 import MqttVerif.Conn.Lemmas.TimersSend
 import MqttVerif.Conn.Lemmas.TimersRearm
+import MqttVerif.Conn.Lemmas.SrvMs3
 /-!
 # C15 — keep-alive timer requests are consistent and complete
 
@@ -8,6 +9,9 @@ Model: `Conn.step` (L2).  Ghost state: `Mon.Armed`, maintained from the *events*
 `Mon.timersStep` (`RequestTimerReset k` arms, `RequestTimerCancel k` requires armed and clears);
 a fired timer is no longer armed when `notify_timer_fired` starts (`startArmed`).
 `flagsOf s` = the model's own `pingreq_send_set / pingreq_recv_set / pingresp_recv_set`.
+
+Section 8: the driver monitor `C15 no_recv_rearm` (ghost `srvMs`) as a theorem of the model; its
+lemma files `Conn/Lemmas/SrvMs*.lean` live in their own namespace `SrvMs`.
 
 All theorems are for **every** configuration, state, operation (a `recv` carries arbitrary bytes
 and an arbitrary parser) and operation sequence; none is restricted to reachable states unless
@@ -585,6 +589,488 @@ example :
     (step ⟨.client, 2⟩ exConnectedClient (.send (mkAck ⟨.client, 2⟩ 4 .puback 7))).s.isClient = true ∧
     (step ⟨.client, 2⟩ exConnectedClient (.send (mkAck ⟨.client, 2⟩ 4 .puback 7))).s.status ≠ .disconnected ∧
     pingInterval (step ⟨.client, 2⟩ exConnectedClient (.send (mkAck ⟨.client, 2⟩ 4 .puback 7))).s > 0 := by
+  decide
+
+/-! ## 8. the driver monitor `C15 no_recv_rearm` is a theorem of the model -/
+
+/-- the driver's ghost `srvMs`, before the call: `closed` forgets the timeout
+    (`srv0` in `Driver/ConnDrv.lean`) -/
+def C15.srvReset : Op → Nat → Nat
+  | .closed, _ => 0
+  | _, g => g
+
+/-- the driver's ghost `srvMs`, after the call: the fold of `monitorCall` over the call's events, verbatim -/
+def C15.srvStep (srv0 : Nat) (evs : List Ev) : Nat :=
+  evs.foldl (fun (acc : Nat) (e : Ev) => match e with
+    | .recv q => if q.kind = Kind.connect then q.keepAlive * 1000 * 3 / 2 else acc
+    | .send q _ => if q.kind = Kind.connack ∧ q.rc = some 0 then (match Mon.findProp q pSKA with | some v => v * 1000 * 3 / 2 | none => acc) else acc
+    | _ => acc) srv0
+
+/-- the ghost along a history of calls -/
+def C15.srvRun (cfg : Cfg) : St → Nat → List Op → Nat
+  | _, g, [] => g
+  | s, g, op :: ops => C15.srvRun cfg (step cfg s op).s (C15.srvStep (C15.srvReset op g) (step cfg s op).ev) ops
+
+theorem C15.srvStep_eq (g : Nat) (evs : List Ev) : C15.srvStep g evs = SrvMs.srvStep g evs := by
+  unfold C15.srvStep SrvMs.srvStep
+  congr 1
+
+theorem C15.srvReset_eq (op : Op) (g : Nat) : C15.srvReset op g = SrvMs.srvReset op g := by
+  cases op <;> rfl
+
+theorem C15.srvRun_eq (cfg : Cfg) (ops : List Op) : ∀ (s : St) (g : Nat),
+    C15.srvRun cfg s g ops = SrvMs.srvRun cfg s g ops := by
+  induction ops with
+  | nil => intro s g; rfl
+  | cons op ops ih => intro s g; simp only [C15.srvRun, SrvMs.srvRun, C15.srvStep_eq, C15.srvReset_eq, ih]
+
+
+/-- **C15 (8a), one call** (ghost side of `VIOL sig=C15 no_recv_rearm@<site>`): the relation
+    `SrvMs.Inv s g` between the model state and the driver's ghost `srvMs` —
+
+    * `s.isClient = false → g = s.recvTimeoutMs ∨ g = 0`, and
+    * no stored packet is a successful CONNACK with a Server Keep Alive property —
+
+    is kept by every call that respects the contract `SrvMs.Legal` (CONNACKs sent with an
+    unambiguous Server Keep Alive, `SrvMs.SendOk`; a parser whose result is a CONNECT exactly for
+    a CONNECT frame, `SrvMs.ParseKind`; no such CONNACK handed to `restore_packets`), the ghost
+    being updated exactly as the driver does (`C15.srvReset`, then `C15.srvStep` over the events). -/
+theorem C15_srv_ghost_step (cfg : Cfg) (s : St) (op : Op) (g : Nat) (hl : SrvMs.Legal op)
+    (h : SrvMs.Inv s g) :
+    SrvMs.Inv (step cfg s op).s (C15.srvStep (C15.srvReset op g) (step cfg s op).ev) := by
+  rw [C15.srvStep_eq, C15.srvReset_eq]
+  exact SrvMs.step_inv cfg s op g hl h
+
+/-- **C15 (8a), every history** (ghost side of `VIOL sig=C15 no_recv_rearm@<site>`): from a new
+    connection object with ghost 0, after any sequence of calls that respect `SrvMs.Legal`. -/
+theorem C15_srv_ghost_run (cfg : Cfg) (ver : Nat) (ops : List Op) (hl : ∀ op ∈ ops, SrvMs.Legal op) :
+    SrvMs.Inv (run cfg (St.init cfg ver) ops) (C15.srvRun cfg (St.init cfg ver) 0 ops) := by
+  rw [C15.srvRun_eq]
+  exact SrvMs.run_inv cfg ops _ _ hl (SrvMs.init_inv cfg ver)
+
+/-- what the monitor uses of the relation: on an endpoint that did not start the connection
+    itself, a non-zero ghost **is** the model's `pingreq_recv_timeout_ms` -/
+theorem C15_srv_ghost_is_timeout {s : St} {g : Nat} (h : SrvMs.Inv s g) (hc : s.isClient = false)
+    (hg : g > 0) : s.recvTimeoutMs = g := by
+  rcases h.1 hc with e | e
+  · exact e.symm
+  · omega
+
+theorem C15.hasError_err (c : C) (e : Nat) : Mon.hasError (c.err e).ev = true := by
+  simp [Mon.hasError, C.err, C.push]
+
+theorem C15.prConnect_established (c : C) (pp : Except Nat Pkt) (hs : c.s.status ≠ .disconnected) :
+    (∃ m e, prV3Connect c pp = C.err m e) ∧ (∃ m e, prV5Connect c pp = C.err m e) := by
+  constructor
+  · unfold prV3Connect; rw [if_pos hs]; exact ⟨_, _, rfl⟩
+  · unfold prV5Connect; rw [if_pos hs]; exact ⟨_, _, rfl⟩
+
+/-- on a connection that is not `disconnected`, `process_recv_packet` either refuses the frame
+    (last event `NotifyError`) or is the handler of the frame's packet type (not CONNECT) -/
+theorem C15.processRecvPacket_shape (c : C) (fh : Nat) (data : List Nat) (parse : Nat → Except Nat Pkt)
+    (hs : c.s.status ≠ .disconnected) :
+    (∃ m e, processRecvPacket c fh data parse = C.err m e) ∨
+    (fh / 16 ≠ 1 ∧ processRecvPacket c fh data parse = dispatchRecv c (fh / 16) (parse c.s.ver)) := by
+  unfold processRecvPacket
+  split
+  · exact .inl ⟨_, _, rfl⟩
+  · extract_lets t lvl s1
+    split
+    · exact .inl ⟨_, _, rfl⟩
+    split
+    · split
+      · split
+        · exact .inl ⟨_, _, rfl⟩
+        · split
+          · exact .inl (C15.prConnect_established { c with s := { c.s with ver := 4 } } (parse 4) hs).1
+          split
+          · exact .inl (C15.prConnect_established { c with s := { c.s with ver := 5 } } (parse 5) hs).2
+          · exact .inl ⟨_, _, rfl⟩
+      · exact .inl ⟨_, _, rfl⟩
+    · by_cases h1 : t = 1
+      · left
+        rw [h1]; unfold dispatchRecv; simp only []
+        split
+        · exact (C15.prConnect_established c _ hs).1
+        · exact (C15.prConnect_established c _ hs).2
+      · exact .inr ⟨h1, rfl⟩
+
+/-- the packet handler of a frame that is not CONNACK / PINGRESP / DISCONNECT, on a connection
+    that is not `disconnected` and has a receive timeout: no error event and no panic ⇒ the
+    re-arm is among the events -/
+theorem C15.processRecvPacket_rearms (c : C) (fh : Nat) (data : List Nat) (parse : Nat → Except Nat Pkt)
+    (hs : c.s.status ≠ .disconnected) (hrt : c.s.recvTimeoutMs ≠ 0)
+    (ht : fh / 16 ≠ 2 ∧ fh / 16 ≠ 13 ∧ fh / 16 ≠ 14)
+    (hne : Mon.hasError (processRecvPacket c fh data parse).ev = false)
+    (hpan : (processRecvPacket c fh data parse).s.panic = none) :
+    .timerReset .pingreqRecv c.s.recvTimeoutMs ∈ (processRecvPacket c fh data parse).ev := by
+  rcases C15.processRecvPacket_shape c fh data parse hs with ⟨m, e, h⟩ | ⟨h1, h⟩
+  · rw [h, C15.hasError_err] at hne; cases hne
+  · rw [h] at hne hpan ⊢
+    have ho := dispatchRecv_outcome c (fh / 16) (parse c.s.ver) ⟨h1, ht.1, ht.2.1, ht.2.2⟩
+    generalize dispatchRecv c (fh / 16) (parse c.s.ver) = d at ho hne hpan ⊢
+    cases ho with
+    | rejected m e => rw [C15.hasError_err] at hne; cases hne
+    | panic m site => simp [C.setPanic] at hpan
+    | accepted m q h =>
+      have hm : m.s.recvTimeoutMs ≠ 0 ∧ m.s.status ≠ .disconnected := by rw [h.2.2, h.2.1]; exact ⟨hrt, hs⟩
+      have e : (refreshPingreqRecv m).ev = m.ev ++ [.timerReset .pingreqRecv c.s.recvTimeoutMs] := by
+        rw [refresh_ev, rearmRecv, if_pos hm, h.2.2]
+      simp [C.push, e]
+    | duplicate m h =>
+      have hm : m.s.recvTimeoutMs ≠ 0 ∧ m.s.status ≠ .disconnected := by rw [h.2.2, h.2.1]; exact ⟨hrt, hs⟩
+      have e : (refreshPingreqRecv m).ev = m.ev ++ [.timerReset .pingreqRecv c.s.recvTimeoutMs] := by
+        rw [refresh_ev, rearmRecv, if_pos hm, h.2.2]
+      simp [C.push, e]
+
+/-- the parser contract of the claim: a successful result has the packet type of the frame it was
+    parsed from (as `NSn.ParseNS` of C10, `ParseOk` of C07); implies `SrvMs.ParseKind` -/
+def C15.ParseNibble (parse : Nat → Nat → List Nat → Except Nat Pkt) : Prop :=
+  ∀ v fh d q, parse v fh d = .ok q → q.kind.nibble = fh / 16
+
+theorem C15.ParseNibble.kind {parse : Nat → Nat → List Nat → Except Nat Pkt} (h : C15.ParseNibble parse) :
+    SrvMs.ParseKind parse := SrvMs.ParseKind.of_nibble h
+
+/-- a `recv` call that completes a frame is `process_recv_packet` on that frame -/
+theorem C15.step_recv_complete (cfg : Cfg) (s : St) (inp : List Nat)
+    (parse : Nat → Nat → List Nat → Except Nat Pkt) (pb : Framing.PB) (fh : Nat) (data rest : List Nat)
+    (hfeed : Framing.feed s.pb inp = (pb, some (.complete fh data), rest)) :
+    step cfg s (.recv inp parse)
+      = processRecvPacket { cfg := cfg, s := { s with pb := pb } } fh data (fun v => parse v fh data) := by
+  simp [step, recv, hfeed]
+
+/-- a `recv` call that ends in a framing error reports an error (the monitor's guard
+    `frame ≠ none` lets it through, `!hasError` excludes it) -/
+theorem C15_recv_frame_error_has_error (cfg : Cfg) (s : St) (inp : List Nat)
+    (parse : Nat → Nat → List Nat → Except Nat Pkt) (pb : Framing.PB) (rest : List Nat)
+    (hfeed : Framing.feed s.pb inp = (pb, some .error, rest)) :
+    Mon.hasError (step cfg s (.recv inp parse)).ev = true := by
+  simp [step, recv, hfeed, Mon.hasError, C.err, C.push]
+
+theorem C15.kind_excl_nibble {k : Kind} {t : Nat} (h : k.nibble = t)
+    (hk : k ≠ .disconnect ∧ k ≠ .connack ∧ k ≠ .pingresp) : t ≠ 2 ∧ t ≠ 13 ∧ t ≠ 14 := by
+  subst h; cases k <;> simp_all [Kind.nibble]
+
+/-- **C15 (8b), the claim of `VIOL sig=C15 no_recv_rearm@<site>`** — state `s`, ghost `g` related by
+    `SrvMs.Inv`; a `recv` call completes a frame which the parser (contract `C15.ParseNibble`) turns
+    into packet `p`; the connection is not `disconnected` before the call (the monitor: `connected`
+    before and after); the endpoint did not start the connection (`is_client = false` *after* the
+    call, the digest field `cli`); the ghost is non-zero; the call reports no error and does not
+    panic (the monitor is not evaluated on a panicking call); `p` is not DISCONNECT, CONNACK,
+    PINGRESP (the monitor excludes SUBACK and UNSUBACK too: not needed).
+    Then the call's events contain `RequestTimerReset(PingreqRecv, g)`. -/
+theorem C15_no_recv_rearm (cfg : Cfg) (s : St) (g : Nat) (inp : List Nat)
+    (parse : Nat → Nat → List Nat → Except Nat Pkt) (pb : Framing.PB) (fh : Nat) (data rest : List Nat)
+    (p : Pkt)
+    (hinv : SrvMs.Inv s g)
+    (hnib : C15.ParseNibble parse)
+    (hfeed : Framing.feed s.pb inp = (pb, some (.complete fh data), rest))
+    (hp : parse s.ver fh data = .ok p)
+    (hs : s.status ≠ .disconnected)
+    (hcli : (step cfg s (.recv inp parse)).s.isClient = false)
+    (hg : g > 0)
+    (hne : Mon.hasError (step cfg s (.recv inp parse)).ev = false)
+    (hpan : (step cfg s (.recv inp parse)).s.panic = none)
+    (hkind : p.kind ≠ .disconnect ∧ p.kind ≠ .connack ∧ p.kind ≠ .pingresp) :
+    .timerReset .pingreqRecv g ∈ (step cfg s (.recv inp parse)).ev := by
+  have ht := C15.kind_excl_nibble (hnib _ _ _ _ hp) hkind
+  -- `is_client` is the one before the call
+  have hk3 := SrvMs.recv_keeps g { cfg := cfg, s := s } inp parse hnib.kind hs
+    (fun pb' fh' data' rest' hf => by
+      rw [hfeed] at hf
+      simp only [Prod.mk.injEq, Option.some.injEq, Framing.Out.complete.injEq] at hf
+      rw [← hf.2.1.1]; exact ht.1)
+  have hcl0 : s.isClient = false := by
+    have := congrArg (·.1) hk3
+    simp only [SrvMs.K3] at this
+    rw [← this]; exact hcli
+  have hrt : s.recvTimeoutMs = g := C15_srv_ghost_is_timeout hinv hcl0 hg
+  rw [C15.step_recv_complete cfg s inp parse pb fh data rest hfeed] at hne hpan ⊢
+  rw [← hrt]
+  exact C15.processRecvPacket_rearms { cfg := cfg, s := { s with pb := pb } } fh data _ hs
+    (by show s.recvTimeoutMs ≠ 0; omega) ht hne hpan
+
+/-- (8b) in the driver's own terms: the guard of `monitorCall` (status `connected` before and
+    after, the five excluded packet types, `srv0 > 0`, `!hasError`) implies that the test
+    `evs.any (· = RequestTimerReset(PingreqRecv, srv0))` succeeds: no `VIOL` -/
+theorem C15_no_recv_rearm_mon (cfg : Cfg) (s : St) (srv0 : Nat) (inp : List Nat)
+    (parse : Nat → Nat → List Nat → Except Nat Pkt) (pb : Framing.PB) (fh : Nat) (data rest : List Nat)
+    (p : Pkt)
+    (hinv : SrvMs.Inv s srv0) (hnib : C15.ParseNibble parse)
+    (hfeed : Framing.feed s.pb inp = (pb, some (.complete fh data), rest))
+    (hp : parse s.ver fh data = .ok p)
+    (hpan : (step cfg s (.recv inp parse)).s.panic = none)
+    (hguard : s.status = .connected ∧ (step cfg s (.recv inp parse)).s.status = .connected ∧
+      (step cfg s (.recv inp parse)).s.isClient = false ∧ srv0 > 0 ∧
+      Mon.hasError (step cfg s (.recv inp parse)).ev = false ∧ p.kind ≠ Kind.disconnect ∧
+      p.kind ≠ Kind.connack ∧ p.kind ≠ Kind.suback ∧ p.kind ≠ Kind.unsuback ∧ p.kind ≠ Kind.pingresp) :
+    ((step cfg s (.recv inp parse)).ev.any fun (e : Ev) => e = Ev.timerReset Timer.pingreqRecv srv0) = true := by
+  obtain ⟨h1, _, h3, h4, h5, h6, h7, _, _, h10⟩ := hguard
+  have := C15_no_recv_rearm cfg s srv0 inp parse pb fh data rest p hinv hnib hfeed hp
+    (by rw [h1]; decide) h3 h4 h5 hpan ⟨h6, h7, h10⟩
+  exact List.any_eq_true.2 ⟨_, this, by simp⟩
+
+/-- **C15 (8), along a history** (`VIOL sig=C15 no_recv_rearm@<site>` on every legal walk): after
+    any calls that respect `SrvMs.Legal` from a new connection object, with the ghost computed from
+    the events alone (`C15.srvRun … 0`), a further `recv` call that satisfies the monitor's guard
+    re-arms the receive timer with the ghost's value. -/
+theorem C15_no_recv_rearm_run (cfg : Cfg) (ver : Nat) (ops : List Op) (hl : ∀ op ∈ ops, SrvMs.Legal op)
+    (inp : List Nat) (parse : Nat → Nat → List Nat → Except Nat Pkt) (pb : Framing.PB) (fh : Nat)
+    (data rest : List Nat) (p : Pkt) (hnib : C15.ParseNibble parse)
+    (hfeed : Framing.feed (run cfg (St.init cfg ver) ops).pb inp = (pb, some (.complete fh data), rest))
+    (hp : parse (run cfg (St.init cfg ver) ops).ver fh data = .ok p)
+    (hpan : (step cfg (run cfg (St.init cfg ver) ops) (.recv inp parse)).s.panic = none)
+    (hguard : (run cfg (St.init cfg ver) ops).status = .connected ∧
+      (step cfg (run cfg (St.init cfg ver) ops) (.recv inp parse)).s.status = .connected ∧
+      (step cfg (run cfg (St.init cfg ver) ops) (.recv inp parse)).s.isClient = false ∧
+      C15.srvReset (.recv inp parse) (C15.srvRun cfg (St.init cfg ver) 0 ops) > 0 ∧
+      Mon.hasError (step cfg (run cfg (St.init cfg ver) ops) (.recv inp parse)).ev = false ∧
+      p.kind ≠ Kind.disconnect ∧ p.kind ≠ Kind.connack ∧ p.kind ≠ Kind.suback ∧ p.kind ≠ Kind.unsuback ∧
+      p.kind ≠ Kind.pingresp) :
+    ((step cfg (run cfg (St.init cfg ver) ops) (.recv inp parse)).ev.any fun (e : Ev) =>
+      e = Ev.timerReset Timer.pingreqRecv (C15.srvReset (.recv inp parse) (C15.srvRun cfg (St.init cfg ver) 0 ops))) = true :=
+  C15_no_recv_rearm_mon cfg _ _ inp parse pb fh data rest p (C15_srv_ghost_run cfg ver ops hl) hnib hfeed hp hpan hguard
+
+/-! ### non-vacuity of (8), and every hypothesis is needed -/
+
+/-- a parser that honours `C15.ParseNibble`: it answers PINGREQ frames only -/
+def C15.exParsePing : Nat → Nat → List Nat → Except Nat Pkt :=
+  fun v fh _ => if fh / 16 = 12 then .ok (mkPingreq v) else .error eMalformed
+
+theorem C15.exParsePing_nibble : C15.ParseNibble C15.exParsePing := by
+  intro v fh d q h
+  unfold C15.exParsePing at h
+  split at h
+  · rename_i h12; cases h; rw [h12]; rfl
+  · cases h
+
+-- every hypothesis of `C15_no_recv_rearm` holds for a connected v3.1.1 server with receive timeout
+-- 15 s = ghost and the two bytes of a PINGREQ, and so does the conclusion
+example :
+    SrvMs.Inv exServer 15000 ∧
+    Framing.feed exServer.pb [0xC0, 0x00] = ({}, some (.complete 0xC0 []), []) ∧
+    (C15.exParsePing exServer.ver 0xC0 []).toOption = some (mkPingreq 4) ∧
+    exServer.status ≠ .disconnected ∧
+    (step ⟨.server, 2⟩ exServer (.recv [0xC0, 0x00] C15.exParsePing)).s.isClient = false ∧
+    Mon.hasError (step ⟨.server, 2⟩ exServer (.recv [0xC0, 0x00] C15.exParsePing)).ev = false ∧
+    (step ⟨.server, 2⟩ exServer (.recv [0xC0, 0x00] C15.exParsePing)).s.panic = none ∧
+    ((mkPingreq 4).kind ≠ .disconnect ∧ (mkPingreq 4).kind ≠ .connack ∧ (mkPingreq 4).kind ≠ .pingresp) ∧
+    .timerReset .pingreqRecv 15000 ∈ (step ⟨.server, 2⟩ exServer (.recv [0xC0, 0x00] C15.exParsePing)).ev := by
+  decide
+
+-- the theorem applied to it
+example : .timerReset .pingreqRecv 15000 ∈ (step ⟨.server, 2⟩ exServer (.recv [0xC0, 0x00] C15.exParsePing)).ev :=
+  C15_no_recv_rearm ⟨.server, 2⟩ exServer 15000 [0xC0, 0x00] C15.exParsePing {} 0xC0 [] [] (mkPingreq 4)
+    (by decide) C15.exParsePing_nibble (by decide) rfl (by decide) (by decide) (by decide) (by decide)
+    (by decide) (by decide)
+
+/-- the history of a v5.0 server: CONNECT (keep-alive 10) delivered, CONNACK with Server Keep Alive
+    20 sent, then a PINGREQ arrives -/
+def C15.exParseSrv : Nat → Nat → List Nat → Except Nat Pkt :=
+  fun v fh _ => if fh / 16 = 1 then .ok { ver := v, kind := .connect, keepAlive := 10 }
+    else if fh / 16 = 12 then .ok (mkPingreq v) else .error eMalformed
+def C15.exConnackSka : Pkt := { ver := 5, kind := .connack, size := 8, rc := some 0, props := [(pSKA, 20)] }
+def C15.exSrvOps : List Op := [.recv exConnectBytes C15.exParseSrv, .send C15.exConnackSka]
+
+theorem C15.exParseSrv_nibble : C15.ParseNibble C15.exParseSrv := by
+  intro v fh d q h
+  unfold C15.exParseSrv at h
+  split at h
+  · rename_i h1; cases h; rw [h1]; rfl
+  · split at h
+    · rename_i h12; cases h; rw [h12]; rfl
+    · cases h
+
+theorem C15.exSrvOps_legal : ∀ op ∈ C15.exSrvOps, SrvMs.Legal op := by
+  intro op h
+  simp only [C15.exSrvOps, List.mem_cons, List.mem_nil_iff, or_false] at h
+  rcases h with rfl | rfl
+  · exact C15.exParseSrv_nibble.kind
+  · show SrvMs.SendOk C15.exConnackSka
+    decide
+
+-- the ghost follows the model: 15000 after the CONNECT, 30000 after the CONNACK; the PINGREQ re-arms
+-- with 30000
+example :
+    C15.srvRun ⟨.server, 2⟩ (St.init ⟨.server, 2⟩ 5) 0 (C15.exSrvOps.take 1) = 15000 ∧
+    (run ⟨.server, 2⟩ (St.init ⟨.server, 2⟩ 5) (C15.exSrvOps.take 1)).recvTimeoutMs = 15000 ∧
+    C15.srvRun ⟨.server, 2⟩ (St.init ⟨.server, 2⟩ 5) 0 C15.exSrvOps = 30000 ∧
+    (run ⟨.server, 2⟩ (St.init ⟨.server, 2⟩ 5) C15.exSrvOps).recvTimeoutMs = 30000 ∧
+    (run ⟨.server, 2⟩ (St.init ⟨.server, 2⟩ 5) C15.exSrvOps).status = .connected ∧
+    (step ⟨.server, 2⟩ (run ⟨.server, 2⟩ (St.init ⟨.server, 2⟩ 5) C15.exSrvOps) (.recv [0xC0, 0x00] C15.exParseSrv)).ev
+      = [.timerReset .pingreqRecv 30000, .recv (mkPingreq 5)] := by
+  decide
+
+-- `g > 0` is needed: after `closed` the ghost is 0 while the model keeps the old timeout until the
+-- next CONNECT (the relation holds by its second disjunct); the re-arm is with 15000, not with 0
+example :
+    SrvMs.Inv exServer 0 ∧ exServer.status ≠ .disconnected ∧
+    (step ⟨.server, 2⟩ exServer (.recv [0xC0, 0x00] C15.exParsePing)).s.isClient = false ∧
+    Mon.hasError (step ⟨.server, 2⟩ exServer (.recv [0xC0, 0x00] C15.exParsePing)).ev = false ∧
+    (step ⟨.server, 2⟩ exServer (.recv [0xC0, 0x00] C15.exParsePing)).s.panic = none ∧
+    .timerReset .pingreqRecv 0 ∉ (step ⟨.server, 2⟩ exServer (.recv [0xC0, 0x00] C15.exParsePing)).ev := by
+  decide
+
+-- `SrvMs.Inv` is needed (ghost 7 s, model 15 s)
+example :
+    ¬ SrvMs.Inv exServer 7000 ∧
+    .timerReset .pingreqRecv 7000 ∉ (step ⟨.server, 2⟩ exServer (.recv [0xC0, 0x00] C15.exParsePing)).ev := by
+  decide
+
+-- `is_client = false` is needed: an endpoint of role `any` that sent the CONNECT itself has no
+-- receive timeout, whatever ghost is left from an earlier connection it accepted
+example :
+    SrvMs.Inv { St.init ⟨.any, 2⟩ 4 with status := .connected, isClient := true } 15000 ∧
+    Mon.hasError (step ⟨.any, 2⟩ { St.init ⟨.any, 2⟩ 4 with status := .connected, isClient := true }
+      (.recv [0xC0, 0x00] C15.exParsePing)).ev = false ∧
+    (step ⟨.any, 2⟩ { St.init ⟨.any, 2⟩ 4 with status := .connected, isClient := true }
+      (.recv [0xC0, 0x00] C15.exParsePing)).ev = [.recv (mkPingreq 4)] := by
+  decide
+
+-- `status ≠ disconnected` is needed (fix of finding #18: no refresh while disconnected)
+example :
+    SrvMs.Inv { exServer with status := .disconnected } 15000 ∧
+    Mon.hasError (step ⟨.server, 2⟩ { exServer with status := .disconnected } (.recv [0xC0, 0x00] C15.exParsePing)).ev
+      = false ∧
+    (step ⟨.server, 2⟩ { exServer with status := .disconnected } (.recv [0xC0, 0x00] C15.exParsePing)).ev
+      = [.recv (mkPingreq 4)] := by
+  decide
+
+-- "no error event" is needed: a PUBACK that matches nothing in flight is refused, not re-armed
+example :
+    (step ⟨.server, 2⟩ exServer (.recv [0x40, 2, 0, 1] (fun v _ _ => .ok (mkAck ⟨.server, 2⟩ v .puback 1)))).ev
+      = [.close, .error eProtocol] ∧
+    (step ⟨.server, 2⟩ exServer (.recv [0x40, 2, 0, 1] (fun v _ _ => .ok (mkAck ⟨.server, 2⟩ v .puback 1)))).s.panic
+      = none := by
+  decide
+
+-- "no panic" is needed: a parser result without packet identifier for a QoS 1 PUBLISH is a panic
+-- site (C05): no event at all, in particular no error event and no re-arm
+example :
+    (step ⟨.server, 2⟩ exServer (.recv [0x32, 5, 0, 1, 97, 0, 1]
+      (fun v _ _ => .ok { ver := v, kind := .publish, qos := 1 }))).ev = [] ∧
+    (step ⟨.server, 2⟩ exServer (.recv [0x32, 5, 0, 1, 97, 0, 1]
+      (fun v _ _ => .ok { ver := v, kind := .publish, qos := 1 }))).s.panic ≠ none := by
+  decide
+
+-- the excluded packet types are needed: PINGRESP and DISCONNECT are delivered without re-arm …
+example :
+    (step ⟨.any, 2⟩ { exServer with status := .connected } (.recv [0xD0, 0x00] (fun v _ _ => .ok (mkPingresp v)))).ev
+      = [.recv (mkPingresp 4)] ∧
+    (step ⟨.server, 2⟩ exServer (.recv [0xE0, 0x00] (fun v _ _ => .ok { ver := v, kind := .disconnect }))).ev
+      = [.recv { ver := 4, kind := .disconnect }] := by
+  decide
+
+-- … and so is a CONNACK on a connection of role `any` that is `connecting` (with the monitor's
+-- `connected` it is a protocol error, already excluded by "no error event")
+example :
+    (step ⟨.any, 2⟩ { exServer with status := .connecting } (.recv [0x20, 2, 0, 0]
+      (fun v _ _ => .ok { ver := v, kind := .connack, rc := some 0 }))).ev
+      = [.recv { ver := 4, kind := .connack, rc := some 0 }] := by
+  decide
+
+-- `C15.ParseNibble` is needed: a parser that calls the two bytes of a PINGRESP a PINGREQ passes the
+-- monitor's packet-type guard, but the handler is PINGRESP's
+example :
+    (step ⟨.any, 2⟩ exServer (.recv [0xD0, 0x00] (fun v _ _ => .ok (mkPingreq v)))).ev = [.recv (mkPingreq 4)] ∧
+    Mon.hasError (step ⟨.any, 2⟩ exServer (.recv [0xD0, 0x00] (fun v _ _ => .ok (mkPingreq v)))).ev = false := by
+  decide
+
+-- a CONNECT the parser rejects is answered with a refusing CONNACK: neither the model's timeout (no
+-- `initialize`) nor the ghost (no delivery) moves
+example :
+    (step ⟨.server, 2⟩ { St.init ⟨.server, 2⟩ 4 with recvTimeoutMs := 15000 }
+      (.recv exConnectBytes (fun _ _ _ => .error eClientId))).ev
+      = [.send (mkV3Connack 2) none, .close, .error eClientId] ∧
+    (step ⟨.server, 2⟩ { St.init ⟨.server, 2⟩ 4 with recvTimeoutMs := 15000 }
+      (.recv exConnectBytes (fun _ _ _ => .error eClientId))).s.recvTimeoutMs = 15000 ∧
+    C15.srvStep 15000 (step ⟨.server, 2⟩ { St.init ⟨.server, 2⟩ 4 with recvTimeoutMs := 15000 }
+      (.recv exConnectBytes (fun _ _ _ => .error eClientId))).ev = 15000 := by
+  decide
+
+/-! ### every clause of the contract `SrvMs.Legal` is needed for the relation (8a) -/
+
+/-- a v5.0 server that has received CONNECT with keep-alive 10 -/
+def C15.exAccepting (ver : Nat) : St :=
+  { St.init ⟨.server, 2⟩ ver with status := .connecting, recvTimeoutMs := 15000 }
+
+-- `SendOk`, v5.0: with two Server Keep Alive properties the connection keeps the last, an observer
+-- (`Mon.findProp`) reads the first
+example :
+    SrvMs.Inv (C15.exAccepting 5) 15000 ∧
+    ¬ SrvMs.SendOk { ver := 5, kind := .connack, size := 11, rc := some 0, props := [(pSKA, 10), (pSKA, 20)] } ∧
+    (step ⟨.server, 2⟩ (C15.exAccepting 5)
+      (.send { ver := 5, kind := .connack, size := 11, rc := some 0, props := [(pSKA, 10), (pSKA, 20)] })).s.recvTimeoutMs
+      = 30000 ∧
+    C15.srvStep 15000 (step ⟨.server, 2⟩ (C15.exAccepting 5)
+      (.send { ver := 5, kind := .connack, size := 11, rc := some 0, props := [(pSKA, 10), (pSKA, 20)] })).ev
+      = 15000 ∧
+    ¬ SrvMs.Inv (step ⟨.server, 2⟩ (C15.exAccepting 5)
+        (.send { ver := 5, kind := .connack, size := 11, rc := some 0, props := [(pSKA, 10), (pSKA, 20)] })).s
+      (C15.srvStep 15000 (step ⟨.server, 2⟩ (C15.exAccepting 5)
+        (.send { ver := 5, kind := .connack, size := 11, rc := some 0, props := [(pSKA, 10), (pSKA, 20)] })).ev) := by
+  decide
+
+-- `SendOk`, v3.1.1: the model ignores the properties of a v3.1.1 CONNACK, the ghost does not
+example :
+    ¬ SrvMs.SendOk { ver := 4, kind := .connack, size := 4, rc := some 0, props := [(pSKA, 20)] } ∧
+    (step ⟨.server, 2⟩ (C15.exAccepting 4)
+      (.send { ver := 4, kind := .connack, size := 4, rc := some 0, props := [(pSKA, 20)] })).s.recvTimeoutMs = 15000 ∧
+    C15.srvStep 15000 (step ⟨.server, 2⟩ (C15.exAccepting 4)
+      (.send { ver := 4, kind := .connack, size := 4, rc := some 0, props := [(pSKA, 20)] })).ev = 30000 := by
+  decide
+
+-- `ParseKind`, one direction: a PINGREQ frame whose parser result claims to be a CONNECT moves the ghost only
+example :
+    (step ⟨.server, 2⟩ exServer (.recv [0xC0, 0x00]
+      (fun v _ _ => .ok { ver := v, kind := .connect, keepAlive := 20 }))).s.recvTimeoutMs = 15000 ∧
+    C15.srvStep 15000 (step ⟨.server, 2⟩ exServer (.recv [0xC0, 0x00]
+      (fun v _ _ => .ok { ver := v, kind := .connect, keepAlive := 20 }))).ev = 30000 := by
+  decide
+
+-- `ParseKind`, the other direction: a CONNECT frame whose parser result does not say CONNECT moves the model only
+example :
+    SrvMs.Inv { St.init ⟨.server, 2⟩ 4 with recvTimeoutMs := 15000 } 15000 ∧
+    (step ⟨.server, 2⟩ { St.init ⟨.server, 2⟩ 4 with recvTimeoutMs := 15000 } (.recv exConnectBytes
+      (fun v _ _ => .ok { ver := v, kind := .pingreq, keepAlive := 20 }))).s.recvTimeoutMs = 30000 ∧
+    C15.srvStep 15000 (step ⟨.server, 2⟩ { St.init ⟨.server, 2⟩ 4 with recvTimeoutMs := 15000 } (.recv exConnectBytes
+      (fun v _ _ => .ok { ver := v, kind := .pingreq, keepAlive := 20 }))).ev = 15000 := by
+  decide
+
+-- the store clause: a successful CONNACK with Server Keep Alive handed to `restore_packets` is resent
+-- by the next CONNACK(session present) and moves the ghost; the model's timeout stays
+def C15.exLoudOps : List Op :=
+  [.restorePackets [{ ver := 4, kind := .connack, pid := some 1, rc := some 0, props := [(pSKA, 20)] }],
+   .send { ver := 4, kind := .connack, size := 4, rc := some 0, sp := true }]
+example :
+    SrvMs.Inv (C15.exAccepting 4) 15000 ∧
+    SrvMs.loud { ver := 4, kind := .connack, pid := some 1, rc := some 0, props := [(pSKA, 20)] } = true ∧
+    SrvMs.SendOk { ver := 4, kind := .connack, size := 4, rc := some 0, sp := true } ∧
+    (run ⟨.server, 2⟩ (C15.exAccepting 4) C15.exLoudOps).recvTimeoutMs = 15000 ∧
+    C15.srvRun ⟨.server, 2⟩ (C15.exAccepting 4) 15000 C15.exLoudOps = 30000 ∧
+    (run ⟨.server, 2⟩ (C15.exAccepting 4) C15.exLoudOps).status = .connected ∧
+    (run ⟨.server, 2⟩ (C15.exAccepting 4) C15.exLoudOps).isClient = false := by
+  decide
+
+/-! ### what the relation does *not* say (reported)
+
+After `closed` the ghost is 0 while the model keeps `pingreq_recv_timeout_ms` of the connection that
+ended (`notify_closed` does not reset it; the next CONNECT, received or sent, does).  An endpoint of
+role `any` accepts a CONNACK while `disconnected` (`process_recv_*_connack` refuses only when
+`connected`): it becomes `connected` with `is_client = false` and the stale timeout, and re-arms the
+receive timer with it on the next packet, although no CONNECT was received on this connection.
+The monitor is silent there (`srv0 = 0`). -/
+def C15.exStaleOps : List Op :=
+  [.recv exConnectBytes C15.exParseSrv, .closed,
+   .recv [0x20, 2, 0, 0] (fun v _ _ => .ok { ver := v, kind := .connack, rc := some 0 })]
+
+theorem C15_stale_recv_timeout_witness :
+    (run ⟨.any, 2⟩ (St.init ⟨.any, 2⟩ 4) C15.exStaleOps).status = .connected ∧
+    (run ⟨.any, 2⟩ (St.init ⟨.any, 2⟩ 4) C15.exStaleOps).isClient = false ∧
+    (run ⟨.any, 2⟩ (St.init ⟨.any, 2⟩ 4) C15.exStaleOps).recvTimeoutMs = 15000 ∧
+    C15.srvRun ⟨.any, 2⟩ (St.init ⟨.any, 2⟩ 4) 0 C15.exStaleOps = 0 ∧
+    (step ⟨.any, 2⟩ (run ⟨.any, 2⟩ (St.init ⟨.any, 2⟩ 4) C15.exStaleOps) (.recv [0xC0, 0x00] C15.exParseSrv)).ev
+      = [.timerReset .pingreqRecv 15000, .recv (mkPingreq 4)] := by
   decide
 
 end MqttVerif.Conn
